@@ -408,12 +408,12 @@ def correspond(ctx):
     for inp in load_corpus("C11"):
         exact.append(("corpus", inp))
     # structured random, exact tie
-    for _ in range(ctx.n(500, 4000)):
+    for _ in range(ctx.n(1500, 6000)):
         exact.append(("random<=8", gen_input(rng, 8, mode="pulse")))
-    for _ in range(ctx.n(100, 600)):
+    for _ in range(ctx.n(200, 800)):
         exact.append(("cycles-with-durations", gen_input(rng, 8, mode=rng.choice(["cycles", "indices"]))))
     # commutation-rule heavy
-    for _ in range(ctx.n(150, 1200)):
+    for _ in range(ctx.n(400, 1500)):
         exact.append(("cnot-x-z", gen_input(rng, 7, N=rng.choice([2, 3]), kinds=["CNOT", "CNOT", "X", "RX", "Z", "RZ", "RZ", "SNOT"])))
     # exhaustive small alphabet, two durations
     ex = list(exhaustive_inputs(ctx.n(2, 4)))
@@ -445,7 +445,7 @@ def correspond(ctx):
 
     # oracle-only stream: longer lists (set iteration order not tied), continuous durations
     n_long = 0
-    for _ in range(ctx.n(400, 4000)):
+    for _ in range(ctx.n(1200, 6000)):
         inp = gen_input(rng, 14, mode="pulse")
         if rng.random() < 0.5:
             for s in inp["instrs"]:
